@@ -123,6 +123,13 @@ func isCompare(op token.Token) bool {
 }
 
 func runC09(c *Check, w *World) {
+	runC09on(c, w)
+	if w.Cfg.Name == CfgNative.Name {
+		runControl(c, "S1", []string{"ControlEarlyExit|compare"}, func(sink *Check, cw *World) { runC09on(sink, cw) })
+	}
+}
+
+func runC09on(c *Check, w *World) {
 	t, fns := newOtpTaint(w)
 	entries := entryFuncs(w, fns)
 	labelEntries(t, entries, LB)
